@@ -360,6 +360,12 @@ def run_dispatch(ctx, d):
             fails.append(("path-lost/%s" % path, "%s depth %d: path %s returned None" % (q, d["depth"], path)))
             return
         obs.append((path, priv(e).tag, type(e).__name__))
+    # wrapping a parsed node must not change it (MetaAutoReload / MetaTemplate wrote attributes in __init__: F55)
+    bare = ctx.bare_parse(leaf)
+    sig = c14n(bare)
+    wrapped = E.from_tag(bare)
+    if c14n(bare) != sig:
+        fails.append(("parse-mutates/%s" % q, "Element.from_tag(<%s/>) changed the node into %s" % (q, etree.tostring(bare).decode()[-200:])))
     root = E.from_tag(xml)
     see("from_tag(str)", root)
     depth = d["depth"]
@@ -639,7 +645,10 @@ def run_document(ctx, d):
         if k >= d.get("limit", 3):
             continue
         count[node.tag] = k + 1
+        shallow = (sorted(node.attrib.items()), len(node), node.text, node.tail)
         e = E.from_tag(node)
+        if (sorted(node.attrib.items()), len(node), node.text, node.tail) != shallow:
+            fails.append(("parse-mutates/%s" % ctx.qname(node.tag), "Element.from_tag on a node of %s/%s changed its attributes / children" % (Path(d["path"]).name, d["part"])))
         cases.append("Dispatch %s %s" % (coq_str(node.tag), coq_str(type(e).__name__)))
         hist.append(("document", "from_tag"))
         if k == 0:
